@@ -57,6 +57,12 @@ type Failure struct {
 	Model  string   `json:"model"`
 	Detail string   `json:"detail"`
 	Tag    string   `json:"tag"`
+	// the operations evaluated (in reused argument buffers) before and including this one, when the
+	// failure needs that history to reproduce
+	History [][]string `json:"history,omitempty"`
+	// the few operations evaluated just before this one (fresh argument buffers); the replay
+	// evaluates them first, so that a failure that needs a preceding call reproduces
+	Context [][]string `json:"context,omitempty"`
 }
 
 type Result struct {
@@ -64,6 +70,7 @@ type Result struct {
 	Tier          string               `json:"tier"`
 	Seed          int64                `json:"seed"`
 	Evaluations   int                  `json:"evaluations"`
+	ReuseEvaluations int               `json:"reused_buffer_evaluations"`
 	DistinctNT    int                  `json:"distinct_nontrivial"`
 	Rule          string               `json:"rule"`
 	Samples       []string             `json:"samples"`
@@ -85,6 +92,7 @@ type KnownHit struct {
 }
 
 type Runner struct {
+	sibCounter int
 	res      *Result
 	seen     map[[16]byte]struct{}
 	rng      *rand.Rand
@@ -221,6 +229,9 @@ func (r *Runner) addFailure(f Failure, drift bool) {
 		return s
 	}
 	f.Go, f.Model = trunc(f.Go), trunc(f.Model)
+	if f.History == nil && f.Context == nil {
+		f.Context = recentContext(f.Op, f.Args)
+	}
 	if drift {
 		if len(r.res.Drift) < r.maxFail {
 			r.res.Drift = append(r.res.Drift, f)
@@ -352,6 +363,9 @@ func firstDiff(a, b string) string {
 }
 
 func (r *Runner) Finish(rule string, out string) {
+	if len(arenaRing) > 0 {
+		r.reuseReplay()
+	}
 	r.Flush()
 	if r.oracle != nil {
 		r.oracle.Close()
@@ -472,7 +486,7 @@ var (
 const retainSlots = 384
 
 func retain(b []byte) {
-	if retainOff || len(b) > 4096 {
+	if retainOff || len(b) > 4096 || inArena(b) {
 		return
 	}
 	e := retainedSlice{b: b, snap: append([]byte{}, b...), op: retainOp}
@@ -502,11 +516,17 @@ func checkRetained() []string {
 
 func unhx(s string) []byte {
 	if s == "-" {
+		if arena.active {
+			return arenaSlice(nil)
+		}
 		return []byte{}
 	}
 	b, err := hex.DecodeString(s)
 	if err != nil {
 		panic("bad hex in case: " + s)
+	}
+	if arena.active {
+		return arenaSlice(b)
 	}
 	return b
 }
